@@ -1,9 +1,12 @@
 package main
 
 import (
+	"fmt"
 	"math"
 	"math/big"
 	"strconv"
+	"strings"
+	"sync"
 )
 
 // Rng is splitmix64; every random choice of a run derives from one state.
@@ -116,4 +119,59 @@ func (t *toks) ints(xs []int) {
 	for _, x := range xs {
 		t.i(x)
 	}
+}
+
+// runPar: Par <prop> <op> <args..> runs the case <prop>/<op> from 4 goroutines at once, several rounds behind a start
+// barrier; every run must give the same observation (the sequential one, which the model checks): printing,
+// formatting, searching and constructing are safe to use from several goroutines at the same time.
+func runPar(c *Case) []string {
+	inner := Case{Prop: c.Args[0], Ver: c.Ver, Op: c.Args[1], Args: c.Args[2:]}
+	r, ok := runners[inner.Prop+"/"+inner.Op]
+	if !ok {
+		return []string{"NOOP"}
+	}
+	const g, rounds = 4, 8
+	outs := make([][]string, g*rounds)
+	for rd := 0; rd < rounds; rd++ {
+		start := make(chan struct{})
+		var wg sync.WaitGroup
+		for i := 0; i < g; i++ {
+			wg.Add(1)
+			go func(k int) {
+				defer wg.Done()
+				defer func() {
+					if e := recover(); e != nil {
+						outs[k] = []string{"PANIC", sanitize(fmt.Sprint(e))}
+					}
+				}()
+				cc := inner
+				cc.Args = append([]string(nil), inner.Args...)
+				<-start
+				outs[k] = r(&cc)
+			}(rd*g + i)
+		}
+		close(start)
+		wg.Wait()
+	}
+	for _, o := range outs[1:] {
+		if strings.Join(o, " ") != strings.Join(outs[0], " ") {
+			return append(append([]string{"PARMISMATCH"}, outs[0]...), append([]string{"|"}, o...)...)
+		}
+	}
+	return outs[0]
+}
+
+// genPar wraps a sample of the cases of other properties' generators (prop -> one in every k cases).
+func genPar(r *Rng, emit func(Case), prop string, every, max int) {
+	n := 0
+	generators[prop]("quick", r, func(c Case) {
+		if n >= max || c.Ver == "all" || r.Intn(every) != 0 {
+			return
+		}
+		if _, ok := runners[prop+"/"+c.Op]; !ok {
+			return
+		}
+		n++
+		emit(Case{Ver: c.Ver, Op: "Par", Args: append([]string{prop, c.Op}, c.Args...)})
+	})
 }
